@@ -42,8 +42,9 @@ static size_t m_read(void *dst, uint32_t a0, size_t n)
     calls++;
     if (!inside(a, n)) { oob++; }
     if ((uint64_t)a + n > msize) { oob++; return 0; }
-    if ((arm.kind == 1 || arm.kind == 2) && calls == arm.k) {
+    if ((arm.kind == 1 || arm.kind == 2 || arm.kind == 4) && calls == arm.k) {
         struck = 1;
+        if (arm.kind == 4) return (size_t)-1;          /* a driver whose failure value is SIZE_MAX; nothing transferred */
         if (arm.kind == 1 || n == 0) return 0;
         memcpy(dst, medium + a, n - 1);
         return n - 1;
@@ -58,8 +59,9 @@ static size_t m_write(uint32_t a0, const void *src, size_t n)
     calls++;
     if (!inside(a, n)) { oob++; }
     if ((uint64_t)a + n > msize) { oob++; return 0; }
-    if ((arm.kind == 1 || arm.kind == 2) && calls == arm.k) {
+    if ((arm.kind == 1 || arm.kind == 2 || arm.kind == 4) && calls == arm.k) {
         struck = 1;
+        if (arm.kind == 4) return (size_t)-1;
         if (arm.kind == 1 || n == 0) return 0;
         memcpy(medium + a, src, n - 1);
         return n - 1;
